@@ -130,6 +130,41 @@ fn sock_exec(addr: &str, client: Uuid, req: &Req, chunks: Option<Vec<Vec<u8>>>, 
     (Subject::decode_http(req, &r), r)
 }
 
+/// What two overlapping uploads on one socket server did (A sends the first half of its body, B
+/// uploads completely in three chunks, A sends the rest).
+pub struct Overlap {
+    pub a_up: Resp,
+    pub b_up: Resp,
+    pub a_down: Resp,
+    pub b_down: Resp,
+    pub da: Vec<u8>,
+    pub db: Vec<u8>,
+}
+
+/// Both uploads are AddVersion(nil) - by two clients, or by ONE client (then at most one of them can
+/// be accepted and `a_down == b_down` is that client's first version).
+pub fn overlapping_version_uploads(addr: &str, ca: Uuid, cb: Uuid, na: usize, nb: usize, seed: u64) -> Overlap {
+    use crate::http::socket_request_two_parts;
+    let da = PaySpec::new(na, 0, seed ^ 0xA).bytes();
+    let db = PaySpec::new(nb, 0, seed ^ 0xB).bytes();
+    let ra = Req::AddVersion { parent: Uuid::nil(), data: da.clone() };
+    let rb = Req::AddVersion { parent: Uuid::nil(), data: db.clone() };
+    let ha = Subject::build_http(ca, &ra);
+    let mut b_up = Resp::Error("not sent".into());
+    let resp_a = {
+        let mut between = || {
+            let n = db.len();
+            let parts = vec![db[..n / 3].to_vec(), db[n / 3..2 * n / 3].to_vec(), db[2 * n / 3..].to_vec()];
+            b_up = sock_exec(addr, cb, &rb, Some(parts), Framing::Chunked).0;
+        };
+        socket_request_two_parts(addr, &ha, na / 2, Duration::from_secs(30), &mut between)
+    };
+    let a_up = Subject::decode_http(&ra, &resp_a);
+    let a_down = sock_exec(addr, ca, &Req::GetChild { parent: Uuid::nil() }, None, Framing::ContentLength).0;
+    let b_down = sock_exec(addr, cb, &Req::GetChild { parent: Uuid::nil() }, None, Framing::ContentLength).0;
+    Overlap { a_up, b_up, a_down, b_down, da, db }
+}
+
 pub fn shard_run(tier: &str, seed: u64, replay_case: Option<usize>, shard: Shard) -> ShardOut {
     let thorough = tier == "thorough";
     let mut out = ShardOut::default();
